@@ -27,9 +27,9 @@ def _staged(*stages):
                 level = replay['input'].get('level')
                 if name == 'values' and replay['input'].get('spec') is None and level != 'store':
                     continue
-                if name == 'sched' and 'case' not in keys and level not in ('falsy', 'nested-names', 'die-in-run', 'lingering-worker', 'displays'):
+                if name == 'sched' and 'case' not in keys and level not in ('falsy', 'nested-names', 'die-in-run', 'lingering-worker', 'displays', 'custom-cache'):
                     continue
-                if name == 'histories' and 'history' not in keys and level not in ('unreadable-entry', 'zero-duration', 'nested-names', 'second-interpreter', 'mimic'):
+                if name == 'histories' and 'history' not in keys and level not in ('unreadable-entry', 'zero-duration', 'nested-names', 'second-interpreter', 'mimic', 'main-script'):
                     continue
                 if name == 'interrupts' and level not in ('tick-hang', 'line-hang'):
                     continue
